@@ -199,6 +199,36 @@ Theorem C15_route :
 Proof. intros P d. split; [exact (map_route_direct_iff P d) | exact (sample_route_eq_map_route P d)]. Qed.
 Print Assumptions C15_route.
 
+(* MAP(disp, x0) on the closed-form route does not read the caller's initial guess nor disp (the code rebinds x0 to the
+   prior mean) -- every theorem above therefore holds for every x0 argument ... *)
+Theorem C15_x0_argument_ignored :
+  forall (fixed : bool) (m n : nat) (A : list (list Qc)) (b pm : list Qc) (x0arg : option (list Qc)) (disp : bool) (ce cx : option covform),
+  map_entry fixed m n A b pm x0arg disp ce cx = map_entry fixed m n A b pm None true ce cx.
+Proof. exact map_entry_ignores_x0. Qed.
+Print Assumptions C15_x0_argument_ignored.
+
+(* ... and it must not read it: the same formula expanded at a point other than the prior mean returns another vector *)
+Theorem C15_expansion_point_matters :
+  exists m n A b pm v Ce Cx x y,
+    map_core m n A b pm (NMat Ce) (NMat Cx) = Val x /\ map_core m n A b v (NMat Ce) (NMat Cx) = Val y /\ v <> pm /\ x <> y.
+Proof. exact expansion_point_matters. Qed.
+Print Assumptions C15_expansion_point_matters.
+
+(* ML has no closed-form route (ml_route = ROptimiser by definition; the harness compares the observed route and solver
+   label with it, so a new direct branch is a disagreement).  What its result is compared with -- weighted least squares
+   with the checked inverse Pe of the noise covariance meant by the user -- is a stationary point and a maximiser of the
+   likelihood  -1/2 (b - A x)^T Pe (b - A x) *)
+Theorem C15_ml_spec_is_maximiser :
+  forall (m n : nat) (A : list (list Qc)) (b : list Qc) (ce : covform) (x : list Qc),
+  ml_exact m n A b ce = Some x ->
+  exists Pe, qinv (dense_of true m ce) = Some Pe /\
+   (wf_mat n A -> length A = m -> length b = m -> length (dense_of true m ce) = m -> q_sym m Pe -> length x = n ->
+    qmattvec n A (qmatvec Pe (qvsub b (qmatvec A x))) = qvzero n /\
+    ((forall v, length v = m -> 0 <= qdot v (qmatvec Pe v)) ->
+     forall y, length y = n -> lik_q A Pe b x <= lik_q A Pe b y)).
+Proof. exact ml_exact_maximiser. Qed.
+Print Assumptions C15_ml_spec_is_maximiser.
+
 (* the whole cascade of sample_posterior (joint = target still a JointDistribution, s = hasattr(prior,
    "sqrtprecTimesMean"), q = hasattr(likelihood.distribution, "sqrtprec")): Gibbs iff joint; the direct route iff not joint
    and the closed-form condition; what each later choice implies about the posterior's structure *)
